@@ -30,6 +30,11 @@ func runC09(c *Ctx) {
 	c09R3(c, "C09.R3")
 	c09R4(c, "C09.R4")
 	c09R5(c, "C09.R5")
+	// every unauthenticated peer is relayed — also the ones after a replayed hello: the replay memory's lock is
+	// released on every path (a leaked lock parks all later connections before the redirect)
+	c.importing = "C08"
+	c08R1(c, "C08.R1")
+	c.importing = ""
 }
 
 // readLike: calls that fill a sub-slice of the first-packet buffer and report a count.
